@@ -39,7 +39,7 @@ ASSUMPTIONS = ["code outside the traced files is atomic between two pre-emption 
                "request loss/duplication not injected: no property promises idempotent retry",
                "sampling over schedules, not proof; the single-pre-emption sweep is complete only for the sampled request pairs"]
 FAULT_KINDS = ["preemption", "client_disconnect", "step_exception", "invalid_request"]
-PROBES = ["held_stream", "late_close_of_finished_stream", "session_restarted_during_choreography", "stepping_without_session", "invalid_request_sent", "disconnect_mid_stream", "exception_mid_request",
+PROBES = ["time_passes_while_stream_held", "held_stream", "late_close_of_finished_stream", "session_restarted_during_choreography", "stepping_without_session", "invalid_request_sent", "disconnect_mid_stream", "exception_mid_request",
           "refused_while_locked", "stream_completed", "preempted_inside_run_step"]
 EXHAUSTIVE = {"quick": False, "thorough": False}
 
@@ -181,9 +181,18 @@ def gen_choreo_pattern(rng):
              {"a": "open", "h": "s1"}, step(), {"a": "close", "h": "s1"}, step()])
 
 
+ADVANCES_US = [6 * 60 * 10**6, 45 * 60 * 10**6, 3 * 3600 * 10**6]
+
+
 def gen_choreo(rng):
     if rng.random() < 0.35:
-        return gen_choreo_pattern(rng)
+        acts = gen_choreo_pattern(rng)
+        if rng.random() < 0.5:
+            # a slow client: wall-clock time passes while a response is being held (well below the instance time-out)
+            reads = [i for i, a in enumerate(acts) if a["a"] in ("read", "open")]
+            if reads:
+                acts.insert(rng.choice(reads) + 1, {"a": "advance", "us": rng.choice(ADVANCES_US)})
+        return acts
     acts = []
     handles = {}          # name -> "open" | "exhausted" | "closed"
     n_handles = 0
@@ -212,6 +221,8 @@ def gen_choreo(rng):
             acts.append({"a": "req", "kind": rng.choice(["end_session", "begin_session"])})
         elif r < 0.72:
             acts.append({"a": "req", "kind": rng.choice(["results", "keep_alive"])})
+        elif r < 0.79 and sum(1 for a in acts if a["a"] == "advance") < 3:
+            acts.append({"a": "advance", "us": rng.choice(ADVANCES_US)})
         else:
             k = rng.choice(["run_step", "run_step", "run_steps", "stream_full"])
             acts.append({"a": "req", "kind": k, "n": rng.choice([2, 3])})
@@ -281,7 +292,7 @@ def execute_choreo(case):
     log.add("case", case["choreo"])
     with ServerWorld({"model": cfg["model"], "adapter": cfg.get("adapter"), "threads": "serial"}, log, res) as w:
         w.boot()
-        r = w.post("/start-instance", {"timeout": {"minutes": 10}})
+        r = w.post("/start-instance", {"timeout": {"hours": 12} if any(a["a"] == "advance" for a in case["choreo"]) else {"minutes": 10}})
         inst = r.body["instance_uuid"]
         r = w.post("/%s/begin-session" % inst, BEGIN)
         for j in range(cfg.get("pre", 0)):
@@ -317,6 +328,11 @@ def execute_choreo(case):
         try:
             for n, a in enumerate(case["choreo"]):
                 log.add("act", n, a)
+                if a["a"] == "advance":
+                    w.clock.advance(a["us"])
+                    if in_progress():
+                        res.probe("time_passes_while_stream_held")
+                    continue
                 if a["a"] == "open":
                     prog = in_progress()
                     client = w.app.test_client()
